@@ -30,7 +30,7 @@ def obs_class(obs):
     return obs if obs.startswith("state:") else obs.split(":")[0]
 
 
-def first_diff(sa, sb, fa, fb, off=0, tol=R.TOL, resumed=False):
+def first_diff(sa, sb, fa, fb, off=0, tol=R.TOL, resumed=False, tf_lagged=False):
     """first difference between step lists sa[off:] and sb, then between final state files; (t, (obs, a, b)) or None"""
     for j, b in enumerate(sb):
         if off + j >= len(sa):
@@ -38,6 +38,11 @@ def first_diff(sa, sb, fa, fb, off=0, tol=R.TOL, resumed=False):
         dd = R.diff_blocks(sa[off + j], b, tol)
         if dd and resumed and j == 0 and dd[0].startswith("log") and not b["log"]:
             dd = None    # lines written while step K was first executed belong to the stopped run: not expected again
+        if dd and resumed and j == 0 and dd[0].startswith("tf") and tf_lagged:
+            # the total force of the previous step is not available to an engine restarted at this step:
+            # compare everything else of the step
+            b2 = dict(b); a2 = dict(sa[off + j]); b2.pop("tf"); a2.pop("tf")
+            dd = R.diff_blocks(a2, b2, tol)
         if dd:
             return (off + j, dd)
     if len(sa) - off != len(sb):
@@ -100,7 +105,7 @@ def judge(c, d, out, rc, err):
                     % (fmt, it0 + K, "at step %d" % (it0 + t) if t is not None else "in the final state", obs, y, x),
                     K, fmt, t=t, obs=obs)
             # B = A
-            dd = first_diff(A["steps"], B["steps"], fA, fB, off=K, resumed=True)
+            dd = first_diff(A["steps"], B["steps"], fA, fB, off=K, resumed=True, tf_lagged=c.get("tf_lagged", False))
             if dd:
                 t, (obs, x, y) = dd
                 when = "final" if t is None else ("at-restart-step" if t == K else "after")
@@ -108,6 +113,22 @@ def judge(c, d, out, rc, err):
                     "stop after step %d, %s state, fresh instance, load, continue: %s %s is %r, in the run that went on %r"
                     % (it0 + K, fmt, "at step %d" % (it0 + t) if t is not None else "in the final state", obs, y, x),
                     K, fmt, t=t, obs=obs)
+            # analysis windows written to files (running average): the lines of the steps after the stop step
+            if c.get("prefix_per_run") and not dd:
+                la = R.runave_lines("%sP_A_%s.v0.runave.traj" % (pre, lab))
+                lb = R.runave_lines("%sP_B_%s.v0.runave.traj" % (pre, lab))
+                if la is not None:
+                    want = {t: v for t, v in la.items() if t > it0 + K}
+                    got = {t: v for t, v in (lb or {}).items() if t > it0 + K}
+                    missing = sorted(set(want) - set(got))
+                    wrong = [t for t in sorted(set(want) & set(got))
+                             if not (R.close(want[t][0], got[t][0]) and R.close(want[t][1], got[t][1], 1e-7))]
+                    if missing or wrong:
+                        t0 = (missing + wrong)[0]
+                        add("resume", "resume:%s:runave-file" % fam,
+                            "stop after step %d, %s state, resume: running-average file: line of step %d is %r, in the run "
+                            "that went on %r (%d lines missing, %d different)" % (it0 + K, fmt, t0, got.get(t0), want[t0],
+                                                                                  len(missing), len(wrong)), K, fmt, obs="runave")
             # saving immediately after loading reproduces the loaded state
             f1 = "%sa_%s.colvars.state" % (pre, lab)
             f2 = "%sb_%s.colvars.state" % (pre, lab)
@@ -121,6 +142,17 @@ def judge(c, d, out, rc, err):
                     key = "bytes"
                 add("save-after-load", "save-after-load:%s:%s" % (fam, key),
                     "state written after step %d (%s), loaded in a fresh instance and written again: %s" % (it0 + K, fmt, det), K, fmt)
+    # both formats lead to the same final state
+    if "text" in c["fmts"] and "binary" in c["fmts"] and not F:
+        for K in c["Ks"]:
+            ft = pre + "B_%d_text.colvars.state" % K
+            fb = pre + "B_%d_binary.colvars.state" % K
+            ds = R.diff_states(ft, fb)
+            if ds:
+                add("format", "format:%s:state:%s" % (fam, ds[0]),
+                    "stop after step %d: the run resumed from the text state ends with `%s` %r, the one resumed from the "
+                    "binary state with %r" % (it0 + K, ds[0], ds[1], ds[2]), K, None)
+                break
     return F
 
 
